@@ -276,9 +276,11 @@ class ChargingNetwork(BaseSimObj):
         self.constraint_index = list(constraint_frame.index)
         # Update the numpy matrix of constraints by reconstructing it from
         # constraint_frame.
+        # The coefficients are real numbers whatever dtype the Current carried (a
+        # sum involving an empty Current has dtype object).
         self.constraint_matrix = constraint_frame.reindex(
             columns=self.station_ids
-        ).to_numpy()
+        ).to_numpy(dtype=float)
         # Cached information-storing objects for use by Interface.
         _ = self._update_info_store()
 
